@@ -4,12 +4,24 @@
    same documents (block-kind names + bytes + ground-truth spans) and of the escape-pair strings.
 
    State: the document built so far (kind indices) and the scanner state after its last line.  One
-   transition appends a blank line and one block and folds LineStep over the new lines. *)
+   transition appends a blank line and one block and folds LineStep over the new lines.
+
+   Second and third document space (ground truth computed by the reference part of LinkDest.tla):
+   fence documents - every sequence of <= FenceLen fence lines over {backquote, tilde} x FenceRuns x the
+   first FenceVars variants (plain, trailing spaces, info string, indented by 4, indented by 3, space +
+   info string), a link line after each - explored as states too (variable fd); query documents - one link
+   whose query carries every string of <= QLen bytes over the ASCII punctuation (without '%') and a letter,
+   bare and between angle brackets.  The escape pair runs, besides the strings of <= EscLen bytes over a
+   9-symbol alphabet, over every string of <= EscWideLen bytes over ALL ASCII punctuation, a letter and a
+   space. *)
 EXTENDS LinkDest, TLC, Json, FiniteSets, SequencesExt
 CONSTANTS AllLen, CoreLen,      \* bounds on the number of blocks
           Excused,              \* kind names on which the model is known to deviate from the reference (findings
                                 \* demonstrated on the real code; documents containing one are not asserted here)
           EscLen,               \* escape pair: strings up to this length
+          FenceRuns, FenceVars, FenceLen,   \* fence documents: run lengths, number of variants, number of fence lines
+          QLen,                 \* query documents: strings up to this length
+          EscWideLen,           \* escape pair over the whole punctuation: strings up to this length
           Mode                  \* "gen": constant-level checks + export of the cases (no state exploration);
                                 \* "mc": state exploration only (kept apart: TLC's -coverage cannot hold the export)
 
@@ -25,23 +37,47 @@ CoreKinds == {k \in 1..NK : Kinds[k].core}
 Allowed(doc, k) == \/ Len(doc) < AllLen
                    \/ Len(doc) < CoreLen /\ k \in CoreKinds /\ \A i \in 1..Len(doc) : doc[i] \in CoreKinds
 
-VARIABLES doc, S, off
-vars == <<doc, S, off>>
-Init == doc = <<>> /\ S = S0 /\ off = 0
-Next == Mode = "mc" /\ \E k \in 1..NK :
-          /\ Allowed(doc, k)
+\* fence lines: [c, n, v] with v an index in FenceVariants
+FenceVariants == << [ind |-> 0, tr |-> <<>>, name |-> "plain"],
+                    [ind |-> 0, tr |-> <<32, 32>>, name |-> "spaces"],
+                    [ind |-> 0, tr |-> <<103, 111>>, name |-> "info"],            \* go
+                    [ind |-> 4, tr |-> <<>>, name |-> "indent4"],
+                    [ind |-> 3, tr |-> <<>>, name |-> "indent3"],
+                    [ind |-> 0, tr |-> <<32, 103, 111>>, name |-> "spinfo"] >>   \* " go"
+FenceChars == {96, 126}
+FSyms == {[c |-> c, n |-> n, v |-> v] : c \in FenceChars, n \in FenceRuns, v \in 1..FenceVars}
+FLine(x) == [c |-> x.c, n |-> x.n, ind |-> FenceVariants[x.v].ind, tr |-> FenceVariants[x.v].tr]
+FName(x) == "fence_" \o (IF x.c = 96 THEN "bq" ELSE "tilde") \o ToString(x.n) \o "_" \o FenceVariants[x.v].name
+FLines(f) == [i \in 1..Len(f) |-> FLine(f[i])]
+
+VARIABLES doc, S, off, fd
+vars == <<doc, S, off, fd>>
+Init == doc = <<>> /\ S = S0 /\ off = 0 /\ fd = <<>>
+NextBlock == \E k \in 1..NK :
+          /\ fd = <<>> /\ Allowed(doc, k)
           /\ LET i == Len(doc) + 1
                  t == (IF i = 1 THEN <<>> ELSE Sep) \o BT[k][i] IN
              /\ doc' = Append(doc, k)
              /\ S' = StepLines(t, IF i = 1 THEN 1 ELSE 2, off, CfgMulti, S)
              /\ off' = off + Len(t)
+          /\ fd' = fd
+\* append one fence line and its link line
+NextFence == \E x \in FSyms :
+          /\ doc = <<>> /\ Len(fd) < FenceLen
+          /\ LET i == Len(fd) + 1
+                 t == FPiece(FLine(x), i) IN
+             /\ fd' = Append(fd, x)
+             /\ S' = StepLines(t, IF i = 1 THEN 1 ELSE 2, off, CfgMulti, S)
+             /\ off' = off + Len(t)
+          /\ doc' = doc
+Next == Mode = "mc" /\ (NextBlock \/ NextFence)
 
 (* ---- the model meets the reference ---- *)
 HasExcused(d) == \E i \in 1..Len(d) : Kinds[d[i]].name \in Excused
 \* the scanner rewrites exactly the ground-truth relative destinations, and what it writes there is the
 \* reference's Rewrite; the offsets are consistent (the incremental scan sees the whole document's text)
 ModelMeetsRef ==
-  LET dd == Doc(doc)
+  LET dd == IF fd # <<>> THEN FDoc(FLines(fd)) ELSE Doc(doc)
       rel == SelectSeq(dd.spans, LAMBDA sp : sp.c = "rel") IN
   /\ off = Len(dd.src)
   /\ HasExcused(doc) \/
@@ -52,7 +88,7 @@ ModelMeetsRef ==
 \* whatever the model rewrites (also in excused documents, also a span that is not a destination) becomes
 \* absolute against the base
 ModelOutputAbsolute ==
-  LET dd == Doc(doc) IN
+  LET dd == IF fd # <<>> THEN FDoc(FLines(fd)) ELSE Doc(doc) IN
   \A n \in 1..Len(S.reps) : AbsAgainstBase(Sub(dd.src, S.reps[n].s + 1, S.reps[n].e), S.reps[n].repl, CfgMulti)
 
 (* ---- constant-level checks ---- *)
@@ -74,7 +110,10 @@ RewriteAllCfgs(g) ==
         /\ rw.ok => ImplRewrite(rw.repl, Cfgs[c]).ok = FALSE              \* a rewritten destination is kept (idempotence)
 \* escape pair of mdescape.go over the punctuation alphabet
 EscAlphabet == {92, 40, 41, 46, 97, 38, 34, 58, 96}          \* \ ( ) . a & " : `
-EscStrings == SeqsUpTo(EscAlphabet, EscLen)
+\* ... and over the whole ASCII punctuation (every byte CommonMark lets a backslash escape), a letter, a space
+PunctSet == {c \in 33..126 : IsPunct(c)}
+EscWide == PunctSet \cup {97, 32}
+EscStrings == SeqsUpTo(EscAlphabet, EscLen) \cup SeqsUpTo(EscWide, EscWideLen)
 EscPairModel(g) == \A u \in EscStrings : ImplUnescape(ImplURLEscape(u)) = u
 
 (* ---- export ---- *)
@@ -84,16 +123,32 @@ DocCase(id, d, cfg) == LET dd == Doc(d) IN
                        [id |-> id, k |-> "doc", kinds |-> Names(d), src |-> dd.src, spans |-> dd.spans,
                         base |-> cfg.base, dir |-> cfg.dir]
 \* (LET: TLC evaluates a LET-bound value once; a top-level definition applied to an index is re-evaluated)
+\* fence documents and query documents (the kinds field names the fence lines / the spelling)
+FenceDocs(g) == UNION {[1..n -> FSyms] : n \in 1..FenceLen}
+FenceCase(id, f) == LET dd == FDoc(FLines(f)) IN
+                    [id |-> id, k |-> "doc", kinds |-> [i \in 1..Len(f) |-> FName(f[i])], src |-> dd.src, spans |-> dd.spans,
+                     base |-> CfgMulti.base, dir |-> CfgMulti.dir]
+QAlphabet == (PunctSet \ {37}) \cup {97}
+QStrings(g) == SeqsUpTo(QAlphabet, QLen)
+QueryCase(id, s, angle) == LET dd == QDoc(s, angle) IN
+                    [id |-> id, k |-> "doc", kinds |-> <<IF angle THEN "query_escape_angle" ELSE "query_escape">>, src |-> dd.src,
+                     spans |-> dd.spans, base |-> CfgMulti.base, dir |-> CfgMulti.dir]
 Cases(g) ==
   LET docSeq == SetToSeq(AllDocs(g))
       escSeq == SetToSeq(EscStrings)
+      fenceSeq == SetToSeq(FenceDocs(g))
+      qSeq == SetToSeq(QStrings(g))
       nd == Len(docSeq)
       ns == NK * Len(Cfgs)
+      nf == Len(fenceSeq)
+      nq == Len(qSeq)
       multi == [n \in 1..nd |-> DocCase(n, docSeq[n], CfgMulti)]
       \* single blocks under every configuration
       single == [n \in 1..ns |-> DocCase(nd + n, <<((n - 1) % NK) + 1>>, Cfgs[((n - 1) \div NK) + 1])]
-      esc == [n \in 1..Len(escSeq) |-> [id |-> nd + ns + n, k |-> "esc", u |-> escSeq[n]]] IN
-  multi \o single \o esc
+      fence == [n \in 1..nf |-> FenceCase(nd + ns + n, fenceSeq[n])]
+      query == [n \in 1..(2 * nq) |-> QueryCase(nd + ns + nf + n, qSeq[((n - 1) % nq) + 1], n > nq)]
+      esc == [n \in 1..Len(escSeq) |-> [id |-> nd + ns + nf + 2 * nq + n, k |-> "esc", u |-> escSeq[n]]] IN
+  multi \o single \o fence \o query \o esc
 \* the export comes first: a failing model assumption below is a diagnostic, the cases are still replayed
 ASSUME Mode = "gen" => ndJsonSerialize("cases.ndjson", Cases(0))
 ASSUME Mode = "gen" => TableConsistent /\ Len(Kinds) = Cardinality(KindNames)
